@@ -299,7 +299,7 @@ package util
 //@   params (target, rangeMin, rangeMax)
 //@   props C06 C07
 //@   requires fin(target) && fin(rangeMin) && fin(rangeMax) && rangeMin < rangeMax && rangeMin <= target && target <= rangeMax && abs(real(rangeMin)) <= 1.0e9 && abs(real(rangeMax)) <= 1.0e9
-//@   ensures[C06.unit C07] 0.0 <= result && result <= 1.0
+//@   ensures[C06.unit C07 C01 C12 C15 C16] 0.0 <= result && result <= 1.0
 //@   ensures[C06.formula C07] same(result, (((target - rangeMin) / (rangeMax - rangeMin)) * 100.0) / 100.0)
 //@   modifies nothing
 
@@ -322,8 +322,8 @@ package util
 //@   splitreturns
 //@   ghostret lastInterp := result
 //@   ensures same(lastInterp, result)
-//@   ensures[C06.interp.min C07] forall k :: isMinKey(steps, k) && input <= float64(k) ==> same(result, steps[k])
-//@   ensures[C06.interp.max C07] forall k :: isMaxKey(steps, k) && input >= float64(k) ==> same(result, steps[k])
+//@   ensures[C06.interp.min C07 C01 C12 C15 C16] forall k :: isMinKey(steps, k) && input <= float64(k) ==> same(result, steps[k])
+//@   ensures[C06.interp.max C07 C01 C12 C15 C16] forall k :: isMaxKey(steps, k) && input >= float64(k) ==> same(result, steps[k])
 //@   ensures[C06.interp.at C07]  forall k :: k in steps && input == float64(k) ==> same(result, steps[k])
 //@   ensures[C06.interp.segment C07] forall a, b :: adjacent(steps, a, b) && float64(a) < input && input < float64(b) ==> a == segLo && b == segHi
 //@   ghostdo segHit := false
@@ -333,7 +333,7 @@ package util
 //@   ensures[C06.interp.outside C07] !segHit ==> exists k :: (k in steps) && same(result, steps[k])
 //@   ensures[C06.interp.formula C07] segHit ==> same(result, lerp(steps[segLo], steps[segHi], input, float64(segLo), float64(segHi)))
 //@   requires stepsOK(steps) && fin(input)
-//@   ensures[C06.range C07] fin(result) && -0.001 <= result && result <= 255.001
+//@   ensures[C06.range C07 C01 C12 C15 C16] fin(result) && -0.001 <= result && result <= 255.001
 //@   atcall ghost Ratio: segLo := currentX
 //@   atcall ghost Ratio: segHi := nextX
 //@   atcall[C06.segment C07] Ratio: forall a, b :: adjacent(steps, a, b) && float64(a) < input && input < float64(b) ==> a == currentX && b == nextX
@@ -360,11 +360,51 @@ package util
 //@   trusted "any channel"
 
 // ---- helpers of the start-up path (C15) --------------------------------------------------------------------
-//@ opaque func InterpolateLinearlyInt
+// The default PWM map of a fan without PWM read-back is InterpolateLinearlyInt over {0:0, 255:255}. Under contract:
+// the result is a new map whose keys are exactly start..stop, every value is the truncation of an in-range
+// interpolation (so 0..255), and keys at or beyond the smallest / largest step carry exactly that step's value.
+// The interior values (identity for the literal) depend on bit-level rounding of the float32 detour: bounded
+// stand-in recipe default_map_identity, not a proof obligation.
+//@ func InterpolateLinearly
 //@   params (data, start, stop)
-//@   ensures result != nil
-//@   modifies nothing
-//@   trusted "builds a new map from the given one; touches no device or ghost state (body not verified: its callee needs step preconditions that this caller meets only for the literal {0:0, 255:255})"
+//@   props C01 C12
+//@   requires data != nil && stepsOK(*data) && -1000000 <= start && stop <= 1000000
+//@   ensures[interp.dom]   result != nil && fresh(result) && (forall k :: k in result <==> start <= k && k <= stop)
+//@   ensures[C12.interp.range C01 C15 C16] forall k :: k in result ==> fin(result[k]) && -0.001 <= result[k] && result[k] <= 255.001
+//@   ensures[C12.interp.min C01 C15 C16]   forall k, j :: k in result && isMinKey(*data, j) && k <= j ==> same(result[k], (*data)[j])
+//@   ensures[C12.interp.max C01 C15 C16]   forall k, j :: k in result && isMaxKey(*data, j) && k >= j ==> same(result[k], (*data)[j])
+//@   modifies lastInterp, segLo, segHi, segHit
+//@   loop 1 "for i := start; i <= stop; i++"
+//@     invariant start <= i && (i <= stop + 1 || i == start) && interpolated != nil && fresh(interpolated)
+//@     invariant *data == old(*data) && mapdom(*data) == old(mapdom(*data)) && mapval(*data) == old(mapval(*data)) && mapvalk(*data) == old(mapvalk(*data)) && len(*data) == old(len(*data))
+//@     invariant forall k :: k in interpolated <==> start <= k && k < i
+//@     invariant[C12.interp.values C01 C15 C16] forall k :: k in interpolated ==> fin(interpolated[k]) && -0.001 <= interpolated[k] && interpolated[k] <= 255.001
+//@     invariant[C12.interp.values C01 C15 C16] forall k, j :: k in interpolated && isMinKey(*data, j) && k <= j ==> same(interpolated[k], (*data)[j])
+//@     invariant[C12.interp.values C01 C15 C16] forall k, j :: k in interpolated && isMaxKey(*data, j) && k >= j ==> same(interpolated[k], (*data)[j])
+
+//@ pure isMinKeyI(m map[int]int, k int) bool = k in m && (forall j :: j in m ==> k <= j)
+//@ pure isMaxKeyI(m map[int]int, k int) bool = k in m && (forall j :: j in m ==> j <= k)
+//@ pure intStepsOK(m map[int]int) bool = len(m) >= 1 && (forall k :: k in m ==> 0 <= m[k] && m[k] <= 255 && -1000000 <= k && k <= 1000000)
+//@ func InterpolateLinearlyInt
+//@   params (data, start, stop)
+//@   props C01 C12
+//@   requires data != nil && intStepsOK(*data) && -1000000 <= start && stop <= 1000000
+//@   ensures[interp.dom]   result != nil && fresh(result) && (forall k :: k in result <==> start <= k && k <= stop)
+//@   ensures[C12.interp.range C01 C15 C16] forall k :: k in result ==> 0 <= result[k] && result[k] <= 255
+//@   ensures[C12.interp.min C01 C15 C16]   forall k, j :: k in result && isMinKeyI(*data, j) && k <= j ==> result[k] == (*data)[j]
+//@   ensures[C12.interp.max C01 C15 C16]   forall k, j :: k in result && isMaxKeyI(*data, j) && k >= j ==> result[k] == (*data)[j]
+//@   modifies lastInterp, segLo, segHi, segHit
+//@   loop 1 "for k, v := range *data"
+//@     invariant floatData != nil && fresh(floatData) && len(floatData) == count#1
+//@     invariant forall k :: k in floatData <==> k in visited#1
+//@     invariant[C12.interp.values C01 C15 C16] forall k :: k in floatData ==> k in *data && real(floatData[k]) == real((*data)[k]) && fin(floatData[k])
+//@   loop 2 "for k, v := range interpolatedFloat"
+//@     invariant interpolated != nil && fresh(interpolated)
+//@     invariant forall k :: k in interpolated <==> k in visited#2
+//@     invariant *data == old(*data) && mapdom(*data) == old(mapdom(*data)) && mapval(*data) == old(mapval(*data)) && len(*data) == old(len(*data))
+//@     invariant[C12.interp.values C01 C15 C16] forall k :: k in interpolated ==> k in interpolatedFloat && 0 <= interpolated[k] && interpolated[k] <= 255
+//@     invariant[C12.interp.values C01 C15 C16] forall k, j :: k in interpolated && isMinKeyI(*data, j) && k <= j ==> interpolated[k] == (*data)[j]
+//@     invariant[C12.interp.values C01 C15 C16] forall k, j :: k in interpolated && isMaxKeyI(*data, j) && k >= j ==> interpolated[k] == (*data)[j]
 
 // ---- hotter never means slower, step curves (C07) -----------------------------------------------------------
 //@ ghost var segLoSnap int
